@@ -30,6 +30,10 @@ class EvalError(Exception):
     pass
 
 
+class _Skip(Exception):
+    """The generated operation does not apply to the current state (never raised by library code)."""
+
+
 def evaluate(text: str) -> decimal.Decimal:
     """Independent evaluator: usual precedence, left associativity, Decimal default context."""
     pos = 0
@@ -113,15 +117,15 @@ class ExprSim(core.Engine):
         if 'free' in ref:
             k = ref['free']
             if k >= len(st['free']) or st['free'][k] is None:
-                raise KeyError('free expr gone')
+                raise _Skip('free expr gone')
             return st['free'][k]
         obj = st['doc']
         for step in ref['doc']:
             obj = obj[step] if isinstance(step, int) else getattr(obj, step)
             if obj is None:
-                raise KeyError('path gone')
+                raise _Skip('path gone')
         if not isinstance(obj, models.NumberExpr):
-            raise KeyError('not a NumberExpr any more')
+            raise _Skip('not a NumberExpr any more')
         return obj
 
     def _doc_exprs(self, doc: Any) -> list[list]:
@@ -178,7 +182,7 @@ class ExprSim(core.Engine):
                 op = ops[step]
             try:
                 V = self._apply(st, op, step, stats, sig)
-            except KeyError:
+            except _Skip:
                 stats['op_skipped_unresolvable'] += 1
                 V = []
             except core.HarnessError:
@@ -238,7 +242,7 @@ class ExprSim(core.Engine):
         try:
             lv = left.value
         except (decimal.DecimalException, ZeroDivisionError):
-            raise KeyError('left operand does not evaluate')
+            raise _Skip('left operand does not evaluate')
         l_text = print_model(left)
         l_fp = W.fingerprint(left)
         l_before = [(t, t.raw_text) for t in (left.token_store or [])]
@@ -259,7 +263,7 @@ class ExprSim(core.Engine):
                 try:
                     rv = r_obj.value
                 except (decimal.DecimalException, ZeroDivisionError):
-                    raise KeyError('right operand does not evaluate')
+                    raise _Skip('right operand does not evaluate')
             if r_obj is left:
                 # x op x: ordinary arithmetic; in place the right-hand side is used, not consumed
                 stats['same_object_both_sides'] += 1
@@ -268,11 +272,11 @@ class ExprSim(core.Engine):
             a, b = (rv, lv) if mode == 'reflected' else (lv, rv)
             if o == '/' and b == 0:
                 stats['skipped_zero_divisor'] += 1
-                raise KeyError('zero divisor')
+                raise _Skip('zero divisor')
             try:
                 expected = OPS[o](a, b)
             except (decimal.DecimalException, ZeroDivisionError):
-                raise KeyError('arithmetic undefined')
+                raise _Skip('arithmetic undefined')
         else:
             expected = -lv if o == '-' else +lv
         r_is_expr = isinstance(r_obj, models.NumberExpr)
